@@ -6,7 +6,7 @@ def clause(v, rec):
     if v["c09"] != "ok":
         return v["c09"]
     if v["c09t"] not in ("ok", "na"):
-        return v["c09t"]
+        return v["c09t"] + (":" + rec["fick"]["trace"]["exc"] if v["c09t"] == "trace-raised" else "")
     return None
 
 
